@@ -98,6 +98,113 @@ def spec_edge_path(edge_path, inputs):
     return tuple(steps)
 
 
+
+def leaf_left_nodes(tree):
+    """nodes stored as (leaf, intermediate): possible only when the stored child order is not heaviest-first"""
+    return sum(1 for p, (l, r) in tree.children.items() if len(l) == 1 and len(r) > 1)
+
+
+def variants_with_other_child_order(ctx, rng, inputs, output, size_dict, tree):
+    """the same set of intermediates with a different stored (left, right) order at some nodes.
+    route 1 (public): ContractionTreeMulti + reorder_contractions_for_peak_est(), which swaps children in place;
+    route 2: the very assignment that method performs, tree.children[p] = (r, l), at random nodes of a copy
+             (always including one (intermediate, leaf) node when the tree has one)"""
+    import cotengra as ctg
+    from cotengra.scoring import MultiObjectiveDense
+    out = []
+    # route 2
+    t2 = tree.copy()
+    cand = [p for p, (l, r) in t2.children.items() if len(l) > 1 and len(r) == 1]
+    forced = rng.choice(cand) if cand else None
+    for p, (l, r) in list(t2.children.items()):
+        if p == forced or rng.random() < 0.5:
+            t2.children[p] = (r, l)
+    out.append(("swapped", t2))
+    # route 1
+    allix = sorted({ix for t in inputs for ix in t})
+    if allix:
+        var = rng.sample(allix, rng.randint(1, min(3, len(allix))))
+        tm = ctg.ContractionTreeMulti(inputs, output, size_dict, var, MultiObjectiveDense(rng.choice([2, 10, 100])))
+        nodes = dict(enumerate(tm.gen_leaves()))
+        for k, (a, b) in enumerate(tree.get_ssa_path()):
+            nodes[tm.N + k] = tm.contract_nodes_pair(nodes[a], nodes[b])
+        if tm.reorder_contractions_for_peak_est():
+            ctx.count("multi_reordered")
+        out.append(("multi", tm))
+    for tag, vt in out:
+        k = leaf_left_nodes(vt)
+        ctx.count("leaf_left_nodes_" + tag, k)
+        if k:
+            ctx.count("trees_with_leaf_left_node_" + tag)
+        if set(vt.children) != set(tree.children):
+            ctx.fail("re-ordering children changed the set of intermediates (%s)" % tag, {"inputs": inputs, "output": output})
+    return out
+
+
+def check_orders(ctx, rng, ci, tag, tree, mk, N, rec, add, bad, pb, surface):
+    tl = tree_lit(gen.tree_nested(tree))
+    nested_root = gen.tree_nested(tree)
+    sc_ties = {nd: rng.randrange(3) for nd in tree.children}
+    sc_rand = {nd: rng.randrange(50) for nd in tree.children}
+    orders = [("dfs", None, None), ("ties", lambda nd: sc_ties[nd], sc_ties), ("random", lambda nd: sc_rand[nd], sc_rand)]
+    if surface:
+        surf = {nd: tree.surface_order(nd) for nd in tree.children}
+        rk = dict(zip(surf, ranks([repr(v) if not isinstance(v, (int, float, tuple)) else v for v in surf.values()])))
+        orders.append(("surface", "surface_order", rk))
+    else:
+        orders.append(("dfs_str", "dfs", None))
+    for oname, order, scores in orders:
+        ctx.count("order_" + oname + ("_" + tag if tag else ""))
+        what = "%s%s" % (oname, " on the %s variant" % tag if tag else "")
+        try:
+            trav = list(tree.traverse(order))
+        except Exception as e:
+            bad.append("traverse(%s) raised %r" % (what, e))
+            continue
+        trav_nested = [gen.tree_nested(tree, p) for p, _, _ in trav]
+        if not children_first(tree, trav):
+            bad.append("traverse(%s) is not children-first / does not cover every node once: %r" % (
+                what, [sorted(p) for p, _, _ in trav]))
+        try:
+            lp = tree.get_path(order)
+            sp = tree.get_ssa_path(order)
+            ft = tree.flat_tree(order)
+        except Exception as e:
+            bad.append("get_path / get_ssa_path / flat_tree (%s) raised %r" % (what, e))
+            continue
+        if scores is None:
+            tmodel = "(post_sub %s)" % tl
+        else:
+            tab = [(gen.tree_nested(tree, nd), s) for nd, s in scores.items()]
+            tmodel = "(traverse_ordered %s %s)" % (order_lit(tab), tl)
+        orec = dict(rec, order=oname, scores=None if scores is None else sorted((sorted(k), v) for k, v in scores.items()))
+        if oname != "dfs_str":      # the string "dfs" is the default order again: oracle only
+          add("order_%s%s%d" % (oname, tag, ci),
+            "(%s, (get_path %d %s, get_ssa_path %d %s))" % (tmodel, N, tmodel, N, tmodel),
+            "(%s, (%s, %s))" % (trees_lit(trav_nested), pairs_lit(lp), pairs_lit(sp)),
+            orec, "traverse(%s) / get_path / get_ssa_path" % what)
+        # the emitted traversal and both paths, judged by the verified checkers (mine and C01's valid_order_b)
+          add("checked_%s%s%d" % (oname, tag, ci),
+            "(children_first_b %s && covers_b %s %s && roundtrip_ssa_b %d %s %s && roundtrip_lin_b %d %s %s && "
+            "ExecOrderFacts.valid_order_b %s (map (fun p => (Paths.tree_eqb p %s, p)) %s))" % (
+                trees_lit(trav_nested), tl, trees_lit(trav_nested), N, tl, path_lit(sp), N, tl, path_lit(lp),
+                tl, tl, trees_lit(trav_nested)),
+            "true", orec, "verified checkers on the real traversal / paths (%s)" % what)
+        # ---- oracle ----
+        if ft != nested_root:
+            bad.append("flat_tree(%s) is not the tree: %r" % (what, ft))
+        if not oracle.path_is_valid_linear(N, lp):
+            bad.append("get_path(%s) is not a valid linear path: %r" % (what, lp))
+        for kind, kw in (("path", {"path": lp}), ("ssa_path", {"ssa_path": sp})):
+            t3 = mk(**kw)
+            if intermediates(t3) != intermediates(tree):
+                bad.append("tree -> %s (%s) -> tree changes the set of intermediates" % (kind, what))
+        if [tuple(sorted(s)) for s in pb.linear_to_ssa(lp, N)] != [tuple(s) for s in sp]:
+            bad.append("linear_to_ssa(get_path) != get_ssa_path (%s)" % what)
+        if [tuple(s) for s in pb.ssa_to_linear(sp, N)] != [tuple(s) for s in lp]:
+            bad.append("ssa_to_linear(get_ssa_path) != get_path (%s)" % what)
+
+
 def one_network(ctx, rng, ci, add, holder):
     import cotengra as ctg
     from cotengra.pathfinders import path_basic as pb
@@ -120,48 +227,11 @@ def one_network(ctx, rng, ci, add, holder):
     add("from_ssa%d" % ci, "from_ssa_path %d %s" % (N, path_lit(ssa_rand)),
         "Some [%s]" % tree_lit(gen.tree_nested(tree2)), dict(rec, ssa_path=ssa_rand), "from_path(ssa_path=...)")
 
-    # orders
-    table = {}
-    sc_ties = {nd: rng.randrange(3) for nd in tree.children}
-    sc_rand = {nd: rng.randrange(50) for nd in tree.children}
-    surf = {nd: tree.surface_order(nd) for nd in tree.children}
-    rk = dict(zip(surf, ranks([repr(v) if not isinstance(v, (int, float, tuple)) else v for v in surf.values()])))
-    orders = [("dfs", None, None), ("ties", lambda nd: sc_ties[nd], sc_ties), ("random", lambda nd: sc_rand[nd], sc_rand),
-              ("surface", "surface_order", rk)]
-    for oname, order, scores in orders:
-        ctx.count("order_" + oname)
-        trav = list(tree.traverse(order))
-        trav_nested = [gen.tree_nested(tree, p) for p, _, _ in trav]
-        if scores is None:
-            tmodel = "(post_sub %s)" % tl
-        else:
-            tab = [(gen.tree_nested(tree, nd), s) for nd, s in scores.items()]
-            tmodel = "(traverse_ordered %s %s)" % (order_lit(tab), tl)
-        lp = tree.get_path(order)
-        sp = tree.get_ssa_path(order)
-        add("order_%s%d" % (oname, ci),
-            "(%s, (get_path %d %s, get_ssa_path %d %s))" % (tmodel, N, tmodel, N, tmodel),
-            "(%s, (%s, %s))" % (trees_lit(trav_nested), pairs_lit(lp), pairs_lit(sp)),
-            dict(rec, order=oname, scores=None if scores is None else sorted((sorted(k), v) for k, v in scores.items())),
-            "traverse(%s) / get_path / get_ssa_path" % oname)
-        # the emitted traversal and both paths, judged by the verified checkers
-        add("checked_%s%d" % (oname, ci),
-            "(children_first_b %s && covers_b %s %s && roundtrip_ssa_b %d %s %s && roundtrip_lin_b %d %s %s)" % (
-                trees_lit(trav_nested), tl, trees_lit(trav_nested), N, tl, path_lit(sp), N, tl, path_lit(lp)),
-            "true", dict(rec, order=oname), "verified checkers on the real traversal / paths (%s)" % oname)
-        # ---- oracle ----
-        if not children_first(tree, trav):
-            bad.append("traverse(%s) is not children-first / does not cover every node once" % oname)
-        if not oracle.path_is_valid_linear(N, lp):
-            bad.append("get_path(%s) is not a valid linear path: %r" % (oname, lp))
-        for kind, kw in (("path", {"path": lp}), ("ssa_path", {"ssa_path": sp})):
-            t3 = mk(**kw)
-            if intermediates(t3) != intermediates(tree):
-                bad.append("tree -> %s (%s) -> tree changes the set of intermediates" % (kind, oname))
-        if [tuple(sorted(s)) for s in pb.linear_to_ssa(lp, N)] != [tuple(s) for s in sp]:
-            bad.append("linear_to_ssa(get_path) != get_ssa_path (%s)" % oname)
-        if [tuple(s) for s in pb.ssa_to_linear(sp, N)] != [tuple(s) for s in lp]:
-            bad.append("ssa_to_linear(get_ssa_path) != get_path (%s)" % oname)
+    # orders, on the tree as built and on the same tree with other stored child orders
+    check_orders(ctx, rng, ci, "", tree, mk, N, rec, add, bad, pb, surface=True)
+    for tag, vt in variants_with_other_child_order(ctx, rng, inputs, output, size_dict, tree):
+        check_orders(ctx, rng, ci, tag, vt, mk, N, dict(rec, variant=tag, children=[(sorted(p), sorted(l), sorted(r)) for p, (l, r) in vt.children.items()]),
+                     add, bad, pb, surface=False)
 
     # K5: converters on general paths (unary, pairwise, n-ary steps, unsorted steps)
     gp = rand_general_path(rng, N)
@@ -268,8 +338,14 @@ def run(ctx):
             import traceback
             ctx.fail("implementation raised during a path conversion: %r" % (e,),
                      dict(holder.get("rec", {}), traceback=traceback.format_exc()[-2500:]))
+    # generator floor: trees whose stored child order has a leaf on the left of an intermediate
+    f = ctx.coverage["features"]
+    floor = ncases // 4
+    if f.get("trees_with_leaf_left_node_swapped", 0) < floor or f.get("trees_with_leaf_left_node_multi", 0) < max(1, ncases // 25):
+        ctx.fail("generator floor missed: too few trees with a (leaf, intermediate) node: %r" % (
+            {k: v for k, v in f.items() if "leaf_left" in k},), {"floor": floor}, found_input=False)
     ctx.log("generated %d correspondence cases over %d networks" % (len(cases), ncases))
-    failing = ctx.coq_cases("c10", IMPORTS, cases, chunk=60, timeout=900)
+    failing = ctx.coq_cases("c10", IMPORTS, cases, chunk=60, timeout=900, prelude="From Ctg Require ExecOrderFacts.")
     for idx, label, val in failing:
         rec, what = records[idx] if idx < len(records) else ({}, "?")
         rec = dict(rec, correspondence=what, case=label, model_value=val)
